@@ -9,6 +9,6 @@ mkdir -p .build evidence replays harness/src/generated
 cp -f /repo/Cargo.lock harness/Cargo.lock 2>/dev/null || true
 cp -f /repo/Cargo.lock gen/Cargo.lock 2>/dev/null || true
 ( cd gen && CARGO_TARGET_DIR=../.build/gen cargo run --offline --quiet -- ../templates.txt ../harness/src/generated ) || echo "setup: template generation failed"
-( cd harness && CARGO_TARGET_DIR=../.build/native cargo build --offline --bin replay 2>&1 | tail -2 )
-( cd harness && CARGO_TARGET_DIR=../.build/native cargo build --offline --release --bin replay 2>&1 | tail -2 )
+( cd harness && RUSTFLAGS="--cfg garnish_verif" CARGO_TARGET_DIR=../.build/native_hook cargo build --offline --bin replay 2>&1 | tail -2 )
+( cd harness && RUSTFLAGS="--cfg garnish_verif" CARGO_TARGET_DIR=../.build/native_hook cargo build --offline --release --bin replay 2>&1 | tail -2 )
 exit 0
